@@ -123,29 +123,7 @@ func fieldsN(s string, n int) []string {
 
 func init() {
 	StringType.Dict["endswith"] = MustNewMethod("endswith", func(self Object, args Tuple) (Object, error) {
-		selfStr := string(self.(String))
-		suffix := []string{}
-		if len(args) > 0 {
-			if s, ok := args[0].(String); ok {
-				suffix = append(suffix, string(s))
-			} else if s, ok := args[0].(Tuple); ok {
-				for _, t := range s {
-					if v, ok := t.(String); ok {
-						suffix = append(suffix, string(v))
-					}
-				}
-			} else {
-				return nil, ExceptionNewf(TypeError, "endswith first arg must be str, unicode, or tuple, not %s", args[0].Type())
-			}
-		} else {
-			return nil, ExceptionNewf(TypeError, "endswith() takes at least 1 argument (0 given)")
-		}
-		for _, s := range suffix {
-			if strings.HasSuffix(selfStr, s) {
-				return Bool(true), nil
-			}
-		}
-		return Bool(false), nil
+		return self.(String).tailMatch(args, "endswith", strings.HasSuffix)
 	}, 0, "endswith(suffix[, start[, end]]) -> bool")
 
 	StringType.Dict["count"] = MustNewMethod("count", func(self Object, args Tuple) (Object, error) {
@@ -182,35 +160,7 @@ replaced.`)
 	}, 0, "split(sub) -> split string with sub.")
 
 	StringType.Dict["startswith"] = MustNewMethod("startswith", func(self Object, args Tuple) (Object, error) {
-		selfStr := string(self.(String))
-		prefix := []string{}
-		if len(args) > 0 {
-			if s, ok := args[0].(String); ok {
-				prefix = append(prefix, string(s))
-			} else if s, ok := args[0].(Tuple); ok {
-				for _, t := range s {
-					if v, ok := t.(String); ok {
-						prefix = append(prefix, string(v))
-					}
-				}
-			} else {
-				return nil, ExceptionNewf(TypeError, "startswith first arg must be str, unicode, or tuple, not %s", args[0].Type())
-			}
-		} else {
-			return nil, ExceptionNewf(TypeError, "startswith() takes at least 1 argument (0 given)")
-		}
-		if len(args) > 1 {
-			if s, ok := args[1].(Int); ok {
-				selfStr = selfStr[s:]
-			}
-		}
-
-		for _, s := range prefix {
-			if strings.HasPrefix(selfStr, s) {
-				return Bool(true), nil
-			}
-		}
-		return Bool(false), nil
+		return self.(String).tailMatch(args, "startswith", strings.HasPrefix)
 	}, 0, "startswith(prefix[, start[, end]]) -> bool")
 
 	StringType.Dict["strip"] = MustNewMethod("strip", func(self Object, args Tuple, kwargs StringDict) (Object, error) {
@@ -236,6 +186,60 @@ replaced.`)
 	StringType.Dict["join"] = MustNewMethod("join", func(self Object, args Tuple) (Object, error) {
 		return self.(String).Join(args)
 	}, 0, "join(iterable) -> return a string which is the concatenation of the strings in iterable")
+}
+
+// tailMatch implements startswith and endswith
+//
+// match is strings.HasPrefix or strings.HasSuffix
+func (s String) tailMatch(args Tuple, name string, match func(s, affix string) bool) (Object, error) {
+	var affixes []string
+	if len(args) == 0 {
+		return nil, ExceptionNewf(TypeError, "%s() takes at least 1 argument (0 given)", name)
+	}
+	if len(args) > 3 {
+		return nil, ExceptionNewf(TypeError, "%s() takes at most 3 arguments (%d given)", name, len(args))
+	}
+	switch a := args[0].(type) {
+	case String:
+		affixes = append(affixes, string(a))
+	case Tuple:
+		for _, t := range a {
+			v, ok := t.(String)
+			if !ok {
+				return nil, ExceptionNewf(TypeError, "tuple for %s must only contain str, not %s", name, t.Type().Name)
+			}
+			affixes = append(affixes, string(v))
+		}
+	default:
+		return nil, ExceptionNewf(TypeError, "%s first arg must be str or a tuple of str, not %s", name, args[0].Type().Name)
+	}
+	// The optional start and end are in characters, like a slice
+	size := s.len()
+	beg, end := 0, size
+	var err error
+	if len(args) > 1 && args[1] != None {
+		beg, err = IndexInt(args[1])
+		if err != nil {
+			return nil, err
+		}
+	}
+	if len(args) > 2 && args[2] != None {
+		end, err = IndexInt(args[2])
+		if err != nil {
+			return nil, err
+		}
+	}
+	beg, end = adjustIndices(beg, end, size)
+	if beg > end {
+		return False, nil
+	}
+	str := string(s.slice(beg, end, size))
+	for _, affix := range affixes {
+		if match(str, affix) {
+			return True, nil
+		}
+	}
+	return False, nil
 }
 
 // Type of this object
